@@ -379,7 +379,7 @@ BoolRes(b) == [Res(b) EXCEPT !.bool = TRUE]
 Then(r1, r2) == Mk(r2.v, r1.inexact \/ r2.inexact, r1.tie \/ r2.tie, r1.ovf \/ r2.ovf, r1.sub \/ r2.sub, r2.nan)
 
 BinOps == {"add", "sub", "mul", "div"}
-CmpOps == {"eq", "ne", "lt", "le", "gt", "ge"}
+CmpOps == {"eq", "ne", "lt", "le", "gt", "ge", "not_lt", "not_le", "not_gt", "not_ge"}
 UnOps  == {"neg", "abs", "sqrt", "floor", "ceil", "round"}
 PredOps == {"is_nan", "is_infinite", "is_finite"}
 
@@ -400,6 +400,10 @@ ApplyRaw(fm, op, x) ==
       [] op = "le" -> BoolRes(Le(fm, x[1], x[2]))
       [] op = "gt" -> BoolRes(Gt(fm, x[1], x[2]))
       [] op = "ge" -> BoolRes(Ge(fm, x[1], x[2]))
+      [] op = "not_lt" -> BoolRes(~Lt(fm, x[1], x[2]))       \* !(a < b): true when unordered
+      [] op = "not_le" -> BoolRes(~Le(fm, x[1], x[2]))
+      [] op = "not_gt" -> BoolRes(~Gt(fm, x[1], x[2]))
+      [] op = "not_ge" -> BoolRes(~Ge(fm, x[1], x[2]))
       [] op = "is_nan" -> BoolRes(IsNan(fm, x[1]))
       [] op = "is_infinite" -> BoolRes(IsInfinite(fm, x[1]))
       [] op = "is_finite" -> BoolRes(IsFinite(fm, x[1]))
